@@ -84,6 +84,38 @@ func rangesOverMapParam(s *ast.RangeStmt, mp map[string]bool) bool {
 	return ok && mp[id.Name]
 }
 
+// collectLiterals counts the basic literals of a file (import paths and struct tags excluded).
+func collectLiterals(af *ast.File, lits map[string]int) {
+	skip := map[*ast.BasicLit]bool{}
+	for _, im := range af.Imports {
+		skip[im.Path] = true
+	}
+	ast.Inspect(af, func(n ast.Node) bool {
+		if f, ok := n.(*ast.Field); ok && f.Tag != nil {
+			skip[f.Tag] = true
+		}
+		bl, ok := n.(*ast.BasicLit)
+		if !ok || skip[bl] {
+			return true
+		}
+		switch bl.Kind {
+		case token.STRING:
+			if v, err := strconv.Unquote(bl.Value); err == nil && v != "" && len(v) <= 80 {
+				lits["s:"+v]++
+			}
+		case token.CHAR:
+			if v, _, _, err := strconv.UnquoteChar(strings.Trim(bl.Value, "'"), '\''); err == nil {
+				lits["r:"+strconv.Itoa(int(v))]++
+			}
+		case token.INT:
+			if v, err := strconv.ParseInt(bl.Value, 0, 64); err == nil {
+				lits["i:"+strconv.FormatInt(v, 10)]++
+			}
+		}
+		return true
+	})
+}
+
 func main() {
 	if len(os.Args) < 3 {
 		fmt.Fprintln(os.Stderr, "usage: gen <repo> <out> [instrument]")
@@ -113,6 +145,7 @@ func main() {
 		}
 		return nil
 	})
+	lits := map[string]int{} // "s:<text>" / "r:<code>" / "i:<value>" -> number of occurrences in the non-test sources
 	dirs := []string{}
 	for d := range pkgs {
 		dirs = append(dirs, d)
@@ -134,6 +167,7 @@ func main() {
 				break
 			}
 			pkgName = af.Name.Name
+			collectLiterals(af, lits)
 			for _, decl := range af.Decls {
 				gd, ok := decl.(*ast.GenDecl)
 				if !ok || gd.Tok != token.VAR {
@@ -188,6 +222,47 @@ func Yield(site string) {
 		os.MkdirAll(filepath.Dir(dst), 0o755)
 		os.WriteFile(dst, []byte(src), 0o644)
 		overlay[filepath.Join(repo, "verifsched", "sched.go")] = dst
+	}
+
+	// ---- literals of the working tree that the pinned tree does not have (baseline_literals.json):
+	// the checks add them to their alphabets, value pools and size lists
+	{
+		if dump := os.Getenv("VERIF_DUMP_LITERALS"); dump != "" {
+			b, _ := json.MarshalIndent(lits, "", " ")
+			os.WriteFile(dump, b, 0o644)
+		}
+		base := map[string]int{}
+		if b, err := os.ReadFile(filepath.Join(os.Getenv("VERIF_DIR"), "baseline_literals.json")); err == nil {
+			json.Unmarshal(b, &base)
+		}
+		var ns, nr, ni []string
+		keys := []string{}
+		for k := range lits {
+			keys = append(keys, k)
+		}
+		sort.Strings(keys)
+		for _, k := range keys {
+			if len(base) == 0 || lits[k] <= base[k] {
+				continue
+			}
+			switch k[0] {
+			case 's':
+				ns = append(ns, strconv.Quote(k[2:]))
+			case 'r':
+				nr = append(nr, k[2:])
+			case 'i':
+				ni = append(ni, k[2:])
+			}
+		}
+		src := "// Code generated by /verif/mc/cmd/gen (build overlay only). DO NOT EDIT.\n\npackage verifsched\n\n" +
+			"// String, character and integer literals that occur (more often) in the non-test sources of the\n// working tree than in the pinned tree.\n" +
+			"var NewStrings = []string{" + strings.Join(ns, ", ") + "}\n" +
+			"var NewRunes = []rune{" + strings.Join(nr, ", ") + "}\n" +
+			"var NewInts = []int64{" + strings.Join(ni, ", ") + "}\n"
+		dst := filepath.Join(out, "verifsched", "literals.go")
+		os.WriteFile(dst, []byte(src), 0o644)
+		overlay[filepath.Join(repo, "verifsched", "literals.go")] = dst
+		manifest = append(manifest, fmt.Sprintf("literals new against the pinned tree: %d strings %v, %d characters %v, %d integers %v", len(ns), ns, len(nr), nr, len(ni), ni))
 	}
 
 	// ---- instrumented copies
